@@ -874,6 +874,10 @@ fn emit_pair<T: Ty>(o: &mut Out, tid: usize, min: &Option<Vec<u8>>, a: &V, b: &V
         }
         if nontrivial {
             o.nontrivial.insert(case);
+            // the last token of the implx line: the check counts distinct non-trivial pairs across batches
+            let l = o.impx.len();
+            o.impx.truncate(l - 1);
+            o.impx.push_str(" nt=1\n");
         }
     } else {
         o.mark("equal_pair");
